@@ -36,7 +36,8 @@ ASSUMPTIONS = [
 
 @st.composite
 def _case(draw, tier):
-    topo = draw(gen.g1_nodes(3, 7, default_on_edge=0.0))
+    # node names that START WITH a container's name (containers are sub0, sub1, ...) are legal and a trap for string matching
+    topo = draw(gen.g1_nodes(3, 7, default_on_edge=0.0, prefix=draw(st.sampled_from(["n", "n", "n", "sub0_", "sub1"]))))
     for n in topo:
         n["defaults"] = {}
     if prob(draw, 0.3) and len(topo) >= 2:
@@ -46,7 +47,21 @@ def _case(draw, tier):
         topo[j]["wait_for"] = ["sig_v"]
     depth = draw(st.sampled_from([0, 1, 1, 2, 2, 3]))
     renamed = False
-    if depth:
+    siblings = prob(draw, 0.2)
+    if siblings:
+        # 2-3 SIBLING containers; some take their inputs under fresh inner names (the wrapper's inputs are renamed back), so
+        # the only node that lists the outer name as an input is the container itself
+        outer, _wg = draw(gen.multi_nest(topo))
+        for w in outer:
+            if w["k"] == "graph" and w["flat_inputs"] and draw(st.booleans()):
+                ins = draw(gen.subset(w["flat_inputs"], 0.6))
+                if ins:
+                    m = {v: v + "_i" for v in ins}
+                    w["graph"]["nodes"] = [{**x, "params": [m.get(q, q) for q in x["params"]]} for x in w["graph"]["nodes"]]
+                    w["renames"] = [{"kind": "inputs", "map": {vi: v for v, vi in m.items()}}]
+        nodes = outer
+        depth = 1 if any(w["k"] == "graph" for w in outer) else 0
+    elif depth:
         renamed = prob(draw, 0.12)
         outer, hidden, inactive = draw(gen.nest_spec(topo, depth, {}, permute_names=renamed))
         if hidden:  # keep every inner output exposed: the diagram is judged on the full structure
@@ -59,7 +74,7 @@ def _case(draw, tier):
     else:
         nodes = [dict(n) for n in topo]
     # a gate INSIDE the (outermost) nested graph, routing between two of its own function nodes
-    if depth >= 1 and not renamed and prob(draw, 0.3):
+    if depth >= 1 and not renamed and not siblings and prob(draw, 0.3):
         w = next((n for n in nodes if n["k"] == "graph"), None)
         inner_funcs = [x["name"] for x in w["graph"]["nodes"] if x["k"] == "func"] if w else []
         if len(inner_funcs) >= 2:
@@ -70,7 +85,7 @@ def _case(draw, tier):
             if gp and gp[0] not in w.get("flat_inputs", []) and gp[0] not in {o for x in w["graph"]["nodes"] for o in x.get("outs", [])}:
                 pass
     # thin wrapper: put the single wrapper inside another graph that has no edges of its own
-    thin = depth >= 1 and prob(draw, 0.25)
+    thin = depth >= 1 and not siblings and prob(draw, 0.25)
     gates = []
     top_names = [n["name"] for n in nodes]
     if prob(draw, 0.4):
@@ -95,7 +110,7 @@ def _case(draw, tier):
                  {"k": "ifelse", "name": "mx", "params": [], "defaults": {}, "t": "br_a", "f": "br_b", "table": [True, False]}]
     else:
         mutex = None
-    return {"topo": topo, "nodes": draw(gen.permuted(nodes + gates + extra)), "depth": depth, "thin": thin, "renamed": renamed, "mutex": mutex}
+    return {"topo": topo, "nodes": draw(gen.permuted(nodes + gates + extra)), "depth": depth, "thin": thin, "renamed": renamed, "mutex": mutex, "siblings": siblings}
 
 
 def strategy(tier):
@@ -177,6 +192,29 @@ def Violation(kind, detail="", **sig):
 
 
 RENAMED = [False]  # set per case: wrapper boundaries renamed over a permuted (colliding) name pool
+RC = [{}]  # set per case: container path -> every name (inner and outer) in its rename maps
+
+
+def _renaming_containers(nodes, prefix=""):
+    out = {}
+    for n in nodes:
+        if n["k"] == "graph":
+            names = {x for st_ in n.get("renames", []) for kv in st_.get("map", {}).items() for x in kv}
+            if names:
+                out[prefix + n["name"]] = names
+            out.update(_renaming_containers(n["graph"]["nodes"], prefix + n["name"] + "/"))
+    return out
+
+
+def _boundary(p, c, names, rc):
+    """(value renamed at a container boundary on its way from p to c, that container is expanded on the consumer side)."""
+    hit = [a for a in _ancestors(c) + _ancestors(p) if RC[0].get(a, set()) & set(names)]
+    exp = any(a in _ancestors(c) and rc and rc[0].startswith(a + "/") for a in hit)
+    return bool(hit), exp
+
+
+def _edge_boundary(*ends):
+    return any(a in RC[0] for e in ends if e for a in [e] + _ancestors(e))
 EV = [None]
 
 
@@ -285,9 +323,10 @@ def _check_state(tag, nodes_list, edges_list, tree, deps, input_consumers, sep, 
                         if d in vis and dn["data"].get("sourceId") == u and (kind != "data" or dn["data"].get("label") in names) and (d, w) in E:
                             ok = True
         if not ok:
+            br, cx = _boundary(p, c, names, rc)
             flag(Violation("c20.missing_edge", f"[{tag}] {kind} dependency {p} -> {c} ({v!r}) is not drawn between visible representatives {rp} and {rc}",
                            dep=kind, mode="sep" if sep else "merged", shape=_shape(p, c, rp, rc), inner_collapsed="collapsed_inner" in _shape(p, c, rp, rc),
-                           folded=_folded(kind, p, c, deps), second_producer=_second_producer(p, v, ORDER[0])))
+                           folded=_folded(kind, p, c, deps), second_producer=_second_producer(p, v, ORDER[0]), boundary_renamed=br, consumer_expanded=cx))
         stats["deps_checked"] += 1
     # ---- soundness
     for e in drawn:
@@ -328,7 +367,8 @@ def _check_state(tag, nodes_list, edges_list, tree, deps, input_consumers, sep, 
                 ok = True
                 break
         if not ok:
-            flag(Violation("c20.spurious_edge", f"[{tag}] {et} edge {u} -> {w} ({e['data'].get('valueName')!r}) corresponds to no {et} dependency", dep=str(et), mode="sep" if sep else "merged"))
+            flag(Violation("c20.spurious_edge", f"[{tag}] {et} edge {u} -> {w} ({e['data'].get('valueName')!r}) corresponds to no {et} dependency", dep=str(et), mode="sep" if sep else "merged",
+                           boundary_renamed=_edge_boundary(src, w)))
         stats["edges_checked"] += 1
 
 
@@ -445,8 +485,10 @@ def _check_mermaid(tag, src, depth, sep, tree, deps, input_consumers, value_alia
                         if data_src(d) == u and (_san(u), d) in E and (d, _san(w)) in E:
                             ok = True
         if not ok:
+            br, cx = _boundary(p, c, value_alias.get(v, {v}), rc)
             flag(Violation("c20.mermaid_missing_edge", f"[{tag}] {kind} dependency {p} -> {c} ({v!r}) is not drawn between {rp} and {rc}", dep=kind, mode="sep" if sep else "merged",
-                           shape=_shape(p, c, rp, rc), inner_collapsed="collapsed_inner" in _shape(p, c, rp, rc), folded=_folded(kind, p, c, deps), second_producer=_second_producer(p, v, ORDER[0])))
+                           shape=_shape(p, c, rp, rc), inner_collapsed="collapsed_inner" in _shape(p, c, rp, rc), folded=_folded(kind, p, c, deps), second_producer=_second_producer(p, v, ORDER[0]),
+                           boundary_renamed=br, consumer_expanded=cx))
         stats["deps_checked"] += 1
     for u, w, style in edges:
         if u.startswith("input"):
@@ -468,7 +510,9 @@ def _check_mermaid(tag, src, depth, sep, tree, deps, input_consumers, value_alia
                 ok = True
                 break
         if not ok:
-            flag(Violation("c20.mermaid_spurious_edge", f"[{tag}] Mermaid edge {u} {'-.->' if style == 'ordering' else '-->'} {w} corresponds to no dependency", style=style))
+            unsan = {_san(x): x for x in tree}
+            flag(Violation("c20.mermaid_spurious_edge", f"[{tag}] Mermaid edge {u} {'-.->' if style == 'ordering' else '-->'} {w} corresponds to no dependency", style=style,
+                           boundary_renamed=_edge_boundary(unsan.get(src), unsan.get(w))))
         stats["edges_checked"] += 1
 
 
@@ -481,6 +525,7 @@ def check_case(case, ev):
     nodes = case["nodes"]
     labels = {f"depth:{case['depth']}"}
     RENAMED[0] = bool(case["renamed"])
+    RC[0] = _renaming_containers(case["nodes"])
     EV[0] = ev
     ORDER[0] = list(case["nodes"])
     spec = {"nodes": nodes, "name": "top"}
@@ -509,6 +554,10 @@ def check_case(case, ev):
     value_alias = _aliases(nodes)
     if case["renamed"]:
         labels.add("renamed_boundaries")
+    if case.get("siblings"):
+        labels.add("sibling_containers")
+        if any(n.get("renames") for n in nodes if n["k"] == "graph"):
+            labels.add("sibling_container_with_fresh_inner_input_names")
     # ---- flat graph
     fg = g.to_flat_graph()
     got_tree = {n: d.get("parent") for n, d in fg.nodes(data=True)}
